@@ -815,12 +815,19 @@ namespace ip {
 		// of a dropped packet: do it from a timer
 		if (m_bytes_in_flight != 0 || m_outgoing_packets.empty()) return;
 		m_connect_timer.expires_after(chrono::milliseconds(100));
-		m_connect_timer.async_wait([this](boost::system::error_code const& ec)
+		// the expiry may already be posted when the socket is closed or
+		// destroyed: find the socket through its forwarder
+		std::shared_ptr<aux::sink_forwarder> fwd = m_forwarder;
+		if (!fwd) return;
+		m_connect_timer.async_wait([fwd](boost::system::error_code const& ec)
 		{
 			if (ec) return;
-			if (!m_channel || m_bytes_in_flight != 0) return;
-			resend_dropped();
-			schedule_resend();
+			sink* dst = fwd->destination();
+			if (dst == nullptr) return;
+			auto* self = static_cast<tcp::socket*>(dst);
+			if (!self->m_channel || self->m_bytes_in_flight != 0) return;
+			self->resend_dropped();
+			self->schedule_resend();
 		});
 	}
 
